@@ -47,11 +47,22 @@ def run_fjsp(p):
                          "proc_times": torch.tensor(p["proc"], dtype=torch.float32), "pad_mask": torch.tensor(p["pad"], dtype=torch.bool)}, batch_size=[B])
         td = env.reset(td)
         out = {"violations": [], "admitted": True}
+        solo = None
+        if B > 1:
+            env1 = Cls(generator=gen, mask_no_ops=p["mask_no_ops"])
+            solo = env1.reset(TensorDict({"start_op_per_job": torch.tensor([p["starts"]]), "end_op_per_job": torch.tensor([p["ends"]]),
+                                          "proc_times": torch.tensor(p["proc"][:1], dtype=torch.float32), "pad_mask": torch.tensor(p["pad"][:1], dtype=torch.bool)}, batch_size=[1]))
         for t, a in enumerate(p["actions"]):
             at = torch.tensor(a)
             if not bool(td["action_mask"].gather(1, at.view(-1, 1)).all()):
                 out["admitted"] = False
                 return out
+            if solo is not None and not bool(solo["done"].all()):
+                if solo["action_mask"][0].tolist() != td["action_mask"][0].tolist():
+                    out["violations"].append(f"row 0 sees mask {td['action_mask'][0].int().tolist()} next to its batch-mate but {solo['action_mask'][0].int().tolist()} alone (after {t} steps)")
+                    return out
+                solo.set("action", at[:1])
+                solo = env1.step(solo)["next"]
             td.set("action", at)
             try:
                 td = env.step(td)["next"]
